@@ -25,7 +25,7 @@ func positioned(stderr, setup string) bool {
 	return false
 }
 
-func badHarness(skeleton string, nMethods int) {
+func badHarness(skeleton string, nMethods int) (rejected bool) {
 	var texts []string
 	var err error
 	stderr := vrt.CaptureStderr(func() { texts, err = frontHalf(skeleton) })
@@ -34,7 +34,7 @@ func badHarness(skeleton string, nMethods int) {
 		vrt.Observe("error", err.Error())
 		vrt.AssertMsg("rejection-has-positioned-diagnostic", positioned(stderr, vrt.SkeletonPath(skeleton)), stderr)
 		vrt.Reach("rejected")
-		return
+		return true
 	}
 	vrt.Assert("no-method-dropped", len(texts) == nMethods)
 	all := ""
@@ -44,25 +44,63 @@ func badHarness(skeleton string, nMethods int) {
 			// e.g. a :literal that is no Go expression: the run is rejected by the formatter
 			// (Generate: format.Source), which is a non-zero exit with a message
 			vrt.Reach("rejected-by-formatter")
-			return
+			return true
 		}
 		all += t
 	}
 	v := vrt.TypeCheckFuncs(skeleton, all)
 	vrt.AssertMsg("emitted-functions-type-check", v == "", v)
 	vrt.Reach("accepted")
+	return false
 }
 
 // C14BadNotation: for every (mal)formed notation of the menu on a method or on the interface the
 // front half neither panics nor drops a method: it either succeeds with one function per method
 // (which parse and type-check) or fails with a diagnostic starting with file:line:column.
+// Shapes that the README documents as unusable must be REJECTED at generation time (C10: "hooks
+// whose parameter or error shape cannot fit the method are rejected"; ":conv" needs a function of
+// one parameter returning a value and optionally an error), and the documented-good ones accepted.
+var mustReject = []string{
+	":preprocess NoSuch", ":preprocess NotFunc", ":preprocess HookZeroArg", ":preprocess HookOneArg", ":preprocess HookRetInt",
+	":preprocess HookTwoRet", ":preprocess HookWrongDst", ":preprocess HookWrongSrc", ":preprocess HookExtra", ":preprocess ext.hidden",
+	":preprocess ext.NoSuch", ":postprocess HookOneArg", ":postprocess HookZeroArg", ":postprocess NoSuch",
+	":conv NoSuch Name", ":conv NotFunc Name", ":conv AType Name", ":conv TwoArgs Name", ":conv NoArg Name", ":conv NoRet Name",
+	":conv ThreeRet Name", ":conv TwoRetNoErr Name", ":conv ext.NoSuch Name", ":conv ext.hidden Name", ":conv nopkg.F Name",
+	":style", ":style foo", ":match", ":match x", ":recv", ":recv 1x", ":recv r-x", ":skip", ":skip /[/", ":skip /(/", ":map", ":map Name",
+	":conv", ":conv Good", ":literal", ":literal Name", ":preprocess", ":postprocess", ":reverse",
+}
+
+var mustAccept = []string{
+	"", ":style arg", ":match tag", ":recv s", ":skip Name", ":skip /Na.*/", ":conv Good Name", ":conv GoodErr Name", ":conv ext.Norm Name",
+	":literal Name \"x\"", ":preprocess HookGood", ":preprocess HookNoErr", ":preprocess HookVal", ":postprocess HookGood",
+	":reverse\n:style arg", ":unknown foo", ":typecast extra args", ":map Nope ID", ":conv Good Nope",
+}
+
+func inList(l []string, s string) bool {
+	for _, x := range l {
+		if x == s {
+			return true
+		}
+	}
+	return false
+}
+
 func C14BadNotation() {
 	n1, i1 := vrt.SlotText("bad", "N1"), vrt.SlotText("bad", "I1")
+
 	vrt.SlotText("bad", "N2")
 	vrt.SlotText("bad", "M1")
 	// interface-level and method-level candidates are explored separately
 	vrt.Assume(n1 == "" || i1 == "")
-	badHarness("bad", 2)
+	rejected := badHarness("bad", 2)
+	if i1 == "" && vrt.SlotText("bad", "M1") == "" {
+		if inList(mustReject, n1) && !(n1 == ":reverse" && vrt.SlotText("bad", "N2") == ":style arg") {
+			vrt.AssertMsg("documented-unusable-shape-is-rejected", rejected, n1)
+		}
+		if inList(mustAccept, n1) {
+			vrt.AssertMsg("documented-usable-notation-is-accepted", !rejected, n1)
+		}
+	}
 }
 
 // C14OutIsInput: -out naming the input file itself is rejected with a diagnostic (the loader hook
